@@ -59,10 +59,10 @@
 #define VF_MTNZ 0  // 1: maxThreads != 0
 #endif
 #ifndef VF_ITLAYOUT
-#define VF_ITLAYOUT 1
+#define VF_ITLAYOUT 2
 #endif
 #ifndef VF_RECUR
-#define VF_RECUR 1  // 1: additionally every configuration with the caller already inside a parallel-for chunk
+#define VF_RECUR 0  // caller already inside a parallel-for chunk of the same pool: 0 never, 1 both, 2 always
 #endif
 
 using Elem = uint8_t;  // ghost: number of applications of the functor to this element
@@ -305,7 +305,7 @@ constexpr int kNumMT = 5 - kMT0;
 constexpr int kNumN = VF_MAXN - VF_MINN + 1;
 constexpr int kNumPool = VF_NPOOL - VF_NPOOL_LO + 1;
 constexpr int kNumWait = VF_WAITSEL == 2 ? 2 : 1;
-constexpr int kNumRecur = VF_RECUR ? 2 : 1;
+constexpr int kNumRecur = VF_RECUR == 1 ? 2 : 1;
 constexpr int kTotal = kNumN * kNumPool * kNumWait * kNumMT * kNumRecur;
 
 template <int K>
@@ -318,7 +318,7 @@ static inline void scenario(uint32_t anyMT) {
   constexpr int k3 = k2 / kNumWait;
   constexpr int mt = kMT0 + k3 % kNumMT;
   constexpr int k4 = k3 / kNumMT;
-  constexpr bool recur = k4 == 1;
+  constexpr bool recur = VF_RECUR == 2 || k4 == 1;
   runConfig((uint32_t)N, wait, (uint32_t)n, VF_ANYMT ? anyMT : kMT[mt], recur);
 }
 
